@@ -135,7 +135,10 @@ class ConstantExpressionEvaluator:
 
         # Ensure division is integer division:
         if expr.typ.is_integer:
-            op_map["/"] = lambda x, y: x // y
+            # C division truncates towards zero:
+            op_map["/"] = lambda x, y: (
+                abs(x) // abs(y) * (1 if (x < 0) == (y < 0) else -1)
+            )
             op_map[">>"] = lambda x, y: x >> y
             op_map["<<"] = lambda x, y: x << y
             op_map["|"] = lambda x, y: x | y
